@@ -287,8 +287,59 @@ func c08MaxAsk(b []byte, t byte) uint64 {
 }
 
 // ---------- Run ----------
+// c08RunBig: the >= 2 GiB witnesses of the negative-size finding.  The input is head followed by
+// `tail` zero bytes (never materialised on the model side; see Corr/C08.v).  Only skippers that
+// work in place are run (bytes-backed bufiox reader: no copy), and returned slices are compared
+// by identity, so the zero pages are never touched.
+func c08RunBig(a []V) V {
+	tb := byte(AsInt(a[0]))
+	t := thrift.TType(int8(tb))
+	head := AsBytes(a[1])
+	tail := AsInt(a[8])
+	b := make([]byte, len(head)+tail)
+	copy(b, head)
+	same := func(ret []byte) bool { return len(ret) == 0 || &ret[0] == &b[0] }
+	notRun := VL{Ls(I(9))}
+	r1 := c08Guarded(func() VL {
+		n, err := thrift.Binary.Skip(b, t)
+		if err != nil {
+			return VL{c08Err(err)}
+		}
+		return VL{c08Ok(n, true, n)}
+	})
+	r2 := c08Guarded(func() VL {
+		br := thrift.NewBufferReader(bufiox.NewBytesReader(b))
+		if err := br.Skip(t); err != nil {
+			return VL{c08Err(err)}
+		}
+		return VL{c08Ok(int(br.Readn()), true, int(br.Readn()))}
+	})
+	r3 := c08Guarded(func() VL {
+		rd := bufiox.NewBytesReader(b)
+		d := thrift.NewSkipDecoder(rd)
+		buf, err := d.Next(t)
+		if err != nil {
+			return VL{c08Err(err)}
+		}
+		return VL{c08Ok(len(buf), same(buf), rd.ReadLen())}
+	})
+	r4 := c08Guarded(func() VL {
+		d := thrift.NewBytesSkipDecoder(b)
+		buf, err := d.Next(t)
+		if err != nil {
+			return VL{c08Err(err)}
+		}
+		return VL{c08Ok(len(buf), same(buf), len(buf))}
+	})
+	b = nil
+	return Ls(r1, r2, r3, r4, notRun)
+}
+
 func c08Run(in V) V {
 	a := AsList(in)
+	if len(a) >= 9 {
+		return c08RunBig(a)
+	}
 	tb := byte(AsInt(a[0]))
 	t := thrift.TType(int8(tb))
 	b := AsBytes(a[1])
